@@ -150,6 +150,7 @@ CheckCase(c) ==
                      RClose(c.after[i].dv, c.before[i].dv, "1/10000000000", RAdd("1/1000000000000000000000000000000", RMul("1/1000000000000", c.before[i].scale))))
     [] c.ev = "truncated" ->     \* C18: a truncated export is rejected rather than partially loaded
          Verdict(id, c.fmt \o " truncated at byte " \o c.cutinfo \o " was accepted", c.res.k = "exc")
+    [] c.ev = "frame" -> Verdict(id, c.what, c.before = c.after)
     [] OTHER -> Verdict(id, "unknown-event", FALSE)
 
 Init == l = 1 /\ LoadCases
